@@ -156,6 +156,7 @@ extern "C" int harness_main() {
   if (!r.failed.empty()) {
     InvocationOpts o2 = o; o2.run.may_fail = false; o2.run.parallelism = 1;
     InvocationResult r2 = invoke(o2);
+    observe(r2);
     bool retried = r2.added && r2.rc == 0;
     for (size_t i = 0; i < r.failed.size(); i++) retried = retried && has_id(r2.started, r.failed[i]);
     VERIF_ASSERT(retried, "C05: the next build retries every command that failed");
